@@ -19,14 +19,20 @@
 //                  r<a>.<s> Rebalance to the relocator (spawn fails -> abort)  x<a>.<s> worker run (Peers fails)
 //        -> per-op results, then "| jobs=.. workers=.. del=<n>"
 //
-// Cases are independent; they are executed concurrently (the real retry backoffs sleep) and the
-// outputs are printed in input order.
+//   nl <k> <h>     one departure with a snapshot: first NodeLeft, k duplicate NodeLefts (real
+//                  handleNodeLeftEvent) while in flight, worker run with h duplicate NodeLefts delivered
+//                  from inside DeletePeerState (the worker is still in finish())
+//        -> "started=<RelocationStarted events> job=held|released del=<n>"
+//
+// Cases are independent; they are executed concurrently (the real retry backoffs sleep) in a child
+// process and the outputs are printed in input order.
 package main
 
 import (
 	"bufio"
 	"fmt"
 	"os"
+	"os/exec"
 	"sort"
 	"strconv"
 	"strings"
@@ -61,8 +67,9 @@ func parseRoles(s string) ([]string, bool) {
 	return out, true
 }
 
+// peers 2k and 2k+1 share a host, peers of equal parity share the remoting port (distinct endpoints)
 func peerOf(i int, roles []string) *cluster.Peer {
-	return &cluster.Peer{Host: "10.0.0." + strconv.Itoa(i+1), RemotingPort: 7000 + i, PeersPort: 8000 + i, Roles: roles}
+	return &cluster.Peer{Host: "10.0.0." + strconv.Itoa(1+i/2), RemotingPort: 7000 + i%2, PeersPort: 8000 + i, Roles: roles}
 }
 
 func parsePeers(s string) ([]*cluster.Peer, bool) {
@@ -570,11 +577,109 @@ func handle(line string) string {
 		return opRS(f)
 	case "job":
 		return opJob(f)
+	case "nl":
+		if len(f) != 3 {
+			return "bad-case"
+		}
+		k, e1 := strconv.Atoi(f[1])
+		h, e2 := strconv.Atoi(f[2])
+		if e1 != nil || e2 != nil || k < 0 || h < 0 || k > 20 || h > 20 {
+			return "bad-case"
+		}
+		started, held, dels, err := actor.VerifNodeLeftScript(k, h)
+		if err != nil {
+			return "rig-error " + vlib.Canon(err.Error())
+		}
+		job := "released"
+		if held {
+			job = "held"
+		}
+		return fmt.Sprintf("started=%d job=%s del=%d", started, job, dels)
 	}
 	return "bad-case"
 }
 
+// The cases are run by a CHILD process (this binary with VERIF_CHILD set) which prints
+// "<index>\t<output>" as each case completes. A panic in a goroutine started by the code under test
+// (errgroup workers) kills the whole child; the supervisor then re-runs only the cases without an
+// output, first with low concurrency and finally one child per case, so that one crashing case (or a
+// rare global race between concurrently built actor systems) cannot take the other cases with it.
+func child(conc int) {
+	in := bufio.NewScanner(os.Stdin)
+	in.Buffer(make([]byte, 1<<20), 1<<28)
+	type job struct {
+		idx  string
+		line string
+	}
+	var jobs []job
+	for in.Scan() {
+		t := in.Text()
+		i := strings.Index(t, "\t")
+		if i < 0 {
+			continue
+		}
+		jobs = append(jobs, job{t[:i], t[i+1:]})
+	}
+	var mu sync.Mutex
+	w := bufio.NewWriter(os.Stdout)
+	sem := make(chan struct{}, conc)
+	var wg sync.WaitGroup
+	for _, j := range jobs {
+		wg.Add(1)
+		sem <- struct{}{}
+		go func() {
+			defer wg.Done()
+			defer func() { <-sem }()
+			out := strings.ReplaceAll(vlib.Safe(func() string { return handle(j.line) }), "\n", "\\n")
+			mu.Lock()
+			fmt.Fprintf(w, "%s\t%s\n", j.idx, out)
+			w.Flush()
+			mu.Unlock()
+		}()
+	}
+	wg.Wait()
+}
+
+func runChild(lines []string, idxs []int, conc int, outs []string, done []bool) string {
+	var in strings.Builder
+	for _, i := range idxs {
+		fmt.Fprintf(&in, "%d\t%s\n", i, lines[i])
+	}
+	cmd := exec.Command(os.Args[0])
+	cmd.Env = append(os.Environ(), "VERIF_CHILD="+strconv.Itoa(conc))
+	cmd.Stdin = strings.NewReader(in.String())
+	var stderr strings.Builder
+	cmd.Stderr = &stderr
+	stdout, _ := cmd.Output()
+	for _, l := range strings.Split(string(stdout), "\n") {
+		k := strings.Index(l, "\t")
+		if k < 0 {
+			continue
+		}
+		i, err := strconv.Atoi(l[:k])
+		if err != nil || i < 0 || i >= len(outs) || done[i] {
+			continue
+		}
+		outs[i] = l[k+1:]
+		done[i] = true
+	}
+	for _, l := range strings.Split(stderr.String(), "\n") {
+		if strings.HasPrefix(l, "panic:") || strings.HasPrefix(l, "fatal error:") {
+			return vlib.Canon(l)
+		}
+	}
+	return ""
+}
+
 func main() {
+	if c := os.Getenv("VERIF_CHILD"); c != "" {
+		n, _ := strconv.Atoi(c)
+		if n < 1 {
+			n = 1
+		}
+		child(n)
+		return
+	}
 	in := bufio.NewScanner(os.Stdin)
 	in.Buffer(make([]byte, 1<<20), 1<<28)
 	var lines []string
@@ -582,18 +687,30 @@ func main() {
 		lines = append(lines, in.Text())
 	}
 	outs := make([]string, len(lines))
-	sem := make(chan struct{}, 48)
-	var wg sync.WaitGroup
-	for i, line := range lines {
-		wg.Add(1)
-		sem <- struct{}{}
-		go func() {
-			defer wg.Done()
-			defer func() { <-sem }()
-			outs[i] = strings.ReplaceAll(vlib.Safe(func() string { return handle(line) }), "\n", "\\n")
-		}()
+	done := make([]bool, len(lines))
+	pending := func() []int {
+		var p []int
+		for i := range lines {
+			if !done[i] {
+				p = append(p, i)
+			}
+		}
+		return p
 	}
-	wg.Wait()
+	for _, conc := range []int{48, 8} {
+		if p := pending(); len(p) > 0 {
+			runChild(lines, p, conc, outs, done)
+		}
+	}
+	for _, i := range pending() {
+		why := runChild(lines, []int{i}, 1, outs, done)
+		if !done[i] {
+			why2 := runChild(lines, []int{i}, 1, outs, done)
+			if !done[i] {
+				outs[i] = "panic: child process died: " + why + " / " + why2
+			}
+		}
+	}
 	w := bufio.NewWriterSize(os.Stdout, 1<<16)
 	defer w.Flush()
 	for _, o := range outs {
